@@ -29,8 +29,13 @@ ParS(t, p) == IF p = Root THEN "root" ELSE IF BelowFile(t, p) THEN "belowfile"
               ELSE IF ParentAbsent(t, p) THEN "noparent" ELSE "ok"
 RelS(s, d) == IF s = d THEN "same" ELSE IF StrictUnder(s, d) THEN "srcInDst"
               ELSE IF StrictUnder(d, s) THEN "dstInSrc" ELSE "disjoint"
-Eff(pre, post, outs) == IF post = pre THEN "same"
-                        ELSE IF \E o \in outs : o.ok /\ o.t = post THEN "asSuccess" ELSE "other"
+\* effect summary: unchanged, the success effect, or the numbers of removed / added / altered paths
+Eff(pre, post, outs) ==
+  IF post = pre THEN "same"
+  ELSE IF \E o \in outs : o.ok /\ o.t = post THEN "asSuccess"
+  ELSE "-" \o ToString(Cardinality(DOMAIN pre \ DOMAIN post))
+       \o "+" \o ToString(Cardinality(DOMAIN post \ DOMAIN pre))
+       \o "~" \o ToString(Cardinality({p \in DOMAIN pre \cap DOMAIN post : pre[p] # post[p]}))
 
 Sig(pre, r, st, post) ==
   LET p == Normalize(r.p)
